@@ -18,7 +18,7 @@ import (
 )
 
 // Rule is the evidence text of the scenario family.
-const Rule = "a meta-process (mailbox unbounded or 1..3) spawned by an actor and monitored through its alias by an observer; 2-4 agents x 1-3 ops from {send by alias, call by alias, inspect, exit signal to the meta-process, Start() returns (nil or error), stop message, panicking message, parent is killed}; with the controlled scheduler over meta.* yield points or free-running; handlers spin 0-30us; " +
+const Rule = "a meta-process (mailbox unbounded or 1..3) spawned by an actor and monitored through its alias by an observer; 2-4 agents x 1-3 ops from {send by alias, call by alias, inspect, exit signal to the meta-process, Start() returns (nil or error), stop message, panicking message, parent is killed}; in one case of five the Terminate callback itself panics; with the controlled scheduler over meta.* yield points or free-running; handlers spin 0-30us; " +
 	"oracle: entry/exit counter over Init/HandleMessage/HandleCall/HandleInspect/Terminate never exceeds 1 (Start is the meta-process's own loop and excluded), Terminate runs at most once and nothing runs after it; its reason and the reason told to the alias monitor are one of the issued causes, never nil, the monitor is told exactly once; after the termination the alias is released (sends to it are refused, MetaInfo fails, the node's alias count is back); " +
 	"non-trivial = a termination cause was issued while >= 1 other op was in flight; distinct by script (+trace)"
 
@@ -55,6 +55,28 @@ func Prop(t *rapid.T, scheduled bool, recMeta *kit.Recorder) {
 			desc = append(desc, fmt.Sprintf("%d:%s", i, mNames[o]))
 		}
 	}
+	// the Terminate callback itself may panic: it still runs once, and everything else ends as usual
+	termPanics := rapid.IntRange(0, 4).Draw(t, "terminate_panics") == 0
+	if termPanics {
+		desc = append(desc, "terminate-panics")
+		// (not together with a panicking message handler: the node calls Terminate from inside its
+		// panic handler then, and a second panic there is not recovered by anything - the whole OS
+		// process dies. No listed property speaks about that; see DESIGN.md section 9.)
+		for i := range agents {
+			for j, o := range agents[i] {
+				if o == mBoom {
+					agents[i][j] = mStop
+				}
+			}
+		}
+		desc = desc[:0]
+		for i := range agents {
+			for _, o := range agents[i] {
+				desc = append(desc, fmt.Sprintf("%d:%s", i, mNames[o]))
+			}
+		}
+		desc = append(desc, "terminate-panics")
+	}
 	var choices []int
 	if scheduled {
 		choices = rapid.SliceOfN(rapid.IntRange(0, 7), 8, 48).Draw(t, "schedule")
@@ -71,7 +93,7 @@ func Prop(t *rapid.T, scheduled bool, recMeta *kit.Recorder) {
 		t.Fatalf("spawn: %v", err)
 	}
 	startErr := make(chan error, 1)
-	cfg := &kit.MetaConfig{Label: "meta", Probe: probe, SpinNs: spinNs}
+	cfg := &kit.MetaConfig{Label: "meta", Probe: probe, SpinNs: spinNs, PanicInTerminate: termPanics}
 	cfg.Stop = make(chan struct{})
 	cfg.StartFn = func(m *kit.Meta) error {
 		select {
